@@ -341,6 +341,8 @@ type world struct {
 	lock  *verifmc.Store
 	clock int64
 	poolSize int
+	// logPoints: error-level log records are scheduling points.
+	logPoints bool
 	// steadyClock suppresses clock anomalies (initial, out-of-scenario loads).
 	steadyClock bool
 	// frozen: the clock has stalled (a persistent anomaly).
@@ -357,6 +359,26 @@ type world struct {
 }
 
 var execCounter atomic.Int64
+
+// pointLogHandler makes every error-level log record of an instance a
+// scheduling point (where the world asks for it): the code between two storage
+// operations is otherwise one atomic step, and error paths log between the
+// things they do (e.g. releasing the waiters and recording the error).
+type pointLogHandler struct{ in *instance }
+
+func (h pointLogHandler) Enabled(_ context.Context, l slog.Level) bool {
+	return h.in.w.logPoints && l >= slog.LevelError
+}
+
+func (h pointLogHandler) Handle(_ context.Context, r slog.Record) error {
+	if s := verifmc.Cur; s != nil && !h.in.bh.Quiet && !h.in.crashed.Load() {
+		s.Point("log: " + r.Message)
+	}
+	return nil
+}
+
+func (h pointLogHandler) WithAttrs([]slog.Attr) slog.Handler { return h }
+func (h pointLogHandler) WithGroup(string) slog.Handler      { return h }
 
 type instance struct {
 	w       *world
@@ -476,7 +498,7 @@ func (w *world) newInstance(name string, epoch int, rows []cacheRow, quiet bool)
 	in.ctx, in.cancel = context.WithCancel(context.Background())
 	in.cfg = &Config{
 		Name: logName, Key: mcKey, WitnessKey: mcWitKey, PoolSize: w.poolSize, Cache: in.cache,
-		Backend: in.be, Lock: &mcLock{h: in.lh, deadlineErrs: w.opt.deadlineErrs}, Log: slog.New(slog.DiscardHandler),
+		Backend: in.be, Lock: &mcLock{h: in.lh, deadlineErrs: w.opt.deadlineErrs}, Log: slog.New(pointLogHandler{in}),
 		NotAfterStart: time.Date(1990, 1, 1, 0, 0, 0, 0, time.UTC),
 		NotAfterLimit: time.Date(2099, 1, 1, 0, 0, 0, 0, time.UTC),
 	}
